@@ -23,6 +23,13 @@ PENDING = {
     "C20": "check designed (DESIGN.md sect. 4, engine S) but not built yet; not claimed until it runs",
 }
 TEXT = {
+    "C14": {
+        "engine": "S",
+        "design_ref": "DESIGN.md sect. 4 (C14), sect. 3.4",
+        "technique": "deterministic simulation with fault injection on simulated body streams: seeded envelope sequences through TracingRoundTripper/TracingHandler with scripted inner transport/handler, seeded partition of every Read/Write, cut at any byte, EOF/eof-with-data/I-O error/early Close/failing short Write; oracle = reference parser of (bytes, cut point) for the event list + elementwise transparency comparison; shrinking + exact replay",
+        "level_text": "Seeded exploration of envelope sequences x partitions x truncation points for request and response bodies on client and server side of the current tree: the reference parser predicts every data event (flags, declared length, index), the end-stream content (decompressed exactly when the compressed flag is set), the partial event of a cut body and the single body-end event with its error; the bytes, counts and errors seen by the application are compared elementwise with those of the inner stream, headers and trailers must be untouched. Since every partition is compared with the partition-independent model, split-independence follows. Evidence, not proof.",
+        "level_note": "Trusted: simio streams, the repository's compressors for producing expected plaintext (C20's subject). No concurrency in this property's code path apart from the cancel goroutine (C16's subject); no scheduler is attached in this scenario.",
+    },
     "C09": {
         "engine": "S",
         "design_ref": "DESIGN.md sect. 4 (C09), sect. 3.4",
